@@ -119,6 +119,51 @@ func init() {
 		}
 		f.p(".\n\n")
 
+		// Marker coefficient set for the term-activation measurement of stream c17 (Model/EvalAct.v):
+		// every entry of coefficient group number d is mark_base^d, so that one evaluation at the
+		// plain-integer score structure yields, per accumulator, a base-mark_base number whose digit d
+		// counts the contributions of group d. A group is a field; a two-dimensional field whose
+		// first dimension is not the mg/eg pair (PSqT: 12 = 6 pieces x mg/eg) has one group per pair
+		// of rows; a small [2][n<=6] table (indexed by piece kind or rank) has one group per column. The group names are listed in the comment line `mark_names:` (read by lib/props.py).
+		const markBits = 12
+		names := []string{"CornerDist"} // digit 0: contributions that are not coefficients (KNBvK corner distance * 30)
+		f.p("Definition mark_bits : Z := %d.\n", markBits)
+		f.p("Definition mark_base : Z := %d.\n", 1<<markBits)
+		f.p("Definition coeff_mark : CoeffSet Z := mkCoeffSet\n")
+		pow := func(d int) string { return fmt.Sprintf("(2 ^ %d)", markBits*d) }
+		for _, fl := range flds {
+			switch {
+			case len(fl.dims) == 1:
+				f.p("  (repeat %s %d)\n", pow(len(names)), fl.dims[0])
+				names = append(names, fl.name)
+			case fl.dims[0] == 2 && fl.dims[1] <= 6:
+				// small mg/eg tables indexed by piece kind or rank: one group per column
+				cols := make([]string, fl.dims[1])
+				for j := range cols {
+					cols[j] = pow(len(names) + j)
+				}
+				f.p("  (repeat [%s] 2)\n", strings.Join(cols, "; "))
+				for j := range cols {
+					names = append(names, fmt.Sprintf("%s.%d", fl.name, j))
+				}
+			case fl.dims[0] == 2:
+				f.p("  (repeat (repeat %s %d) 2)\n", pow(len(names)), fl.dims[1])
+				names = append(names, fl.name)
+			default:
+				rows := make([]string, fl.dims[0])
+				for r := range rows {
+					rows[r] = fmt.Sprintf("repeat %s %d", pow(len(names)+r/2), fl.dims[1])
+				}
+				f.p("  [%s]\n", strings.Join(rows, ";\n   "))
+				for r := 0; r < (fl.dims[0]+1)/2; r++ {
+					names = append(names, fmt.Sprintf("%s.%d", fl.name, r))
+				}
+			}
+		}
+		f.p(".\n")
+		f.p("Definition mark_groups : Z := %d.\n", len(names))
+		f.p("(* mark_names: %s *)\n\n", strings.Join(names, " "))
+
 		// sigmoid table
 		sg := eval.VerifSigm()
 		ss := make([]string, len(sg))
